@@ -17,7 +17,7 @@ RULE = (
     "Fault enumeration over crash points of save(): for each of the five classes and 2 (quick) / 6 (thorough) seed-derived shapes with random "
     "histories (files of 0.6-20 kB), EVERY strict prefix length 0..len-1 of the saved file (saved to a fresh path, or over an existing larger sketch file, or over arbitrary longer content) is written to disk under rotating names (part.npz, full.part, full.npz.tmp, full) next to the complete full.npz and loaded (the argument given as path string, pathlib.Path, open binary file or non-seekable stream, in rotation) through the class "
     "loader (with shared_memory False, and True for one shape per class) and, for count-min, through countmin.load; the complete file must load "
-    "and equal the saved sketch (parameters, tables, bookkeeping, queries). Oracle: every strict prefix raises an exception (any type); returning any "
+    "and equal the saved sketch (parameters, tables, bookkeeping, queries). The same enumeration is repeated for one shape per class in an interpreter started with -O (assert statements stripped), and files of 1 MB and more (one per class: 1 MiB linear table, 2^19+3 log16 counters, 1.2 MB log8, 20000x3x16 heavy hitters, p=16) are cut at the last 4096 lengths, the first 300, around every zip member boundary and at 1500 drawn lengths. Oracle: every strict prefix raises an exception (any type); returning any "
     "object is a violation. Non-trivial: a prefix that ends inside a member's data, a later local header or the central directory / end record "
     "(i.e. beyond the first local header). Distinct = distinct (class, shape, loader, prefix length)."
 )
@@ -192,6 +192,68 @@ def _task(arg):
     return rec
 
 
+BIG = {
+    "linear": {"kind": "linear", "width": 65536, "depth": 4},  # a table of exactly 1 MiB
+    "log16": {"kind": "log16", "width": 2**19 + 3, "depth": 1, "max_count": CEIL, "num_reserved": 1023},
+    "log8": {"kind": "log8", "width": 300000, "depth": 4, "max_count": 10**6, "num_reserved": 3},
+    "hh": {"kind": "hh", "width": 20000, "depth": 3, "max_key_len": 16, "phi": None},
+    "hll": {"kind": "hll", "p": 16, "seed": 2**63 + 5},
+}
+
+
+def _big_task(arg):
+    """Files of a megabyte and more: the last 4096 prefix lengths, the first 300, the neighbourhood of every zip
+    member boundary and 1500 seed-drawn lengths (the file is saved once and truncated step by step)."""
+    kind, via, shm, seed = arg
+    cfg = BIG[kind]
+    rec = common.Recorder()
+    rng = np.random.default_rng(seed)
+    tmp = tempfile.mkdtemp(prefix="vf_c20b_")
+    try:
+        sk = build(cfg, rng)
+        full = os.path.join(tmp, "full.npz")
+        sut(sk.save, full)
+        data_len = os.path.getsize(full)
+        loader = cmmod.load if via == "module" else CLASS_OF[kind].load
+        case0 = {"big": True, "kind": kind, "via": via, "shm": shm, "seed": int(seed), "file_len": data_len}
+        try:
+            cp = sut(loader, full, shm)
+            compare(sk, cp, kind, KEYS[:5], "complete file")
+            del cp
+        except Violation as v:
+            rec.violation(dict(case0, prefix=data_len), "complete file: " + v.msg, "complete-file")
+            return rec
+        with open(full, "rb") as f:
+            first_end, cd_start = regions(f.read())
+        with zipfile.ZipFile(full) as zf:
+            bounds = [i.header_offset for i in zf.infolist()] + [cd_start]
+        offs = set(range(max(0, data_len - 4096), data_len)) | set(range(0, 300))
+        for b in bounds:
+            offs |= set(range(max(0, b - 40), min(data_len, b + 120)))
+        offs |= set(int(x) for x in rng.integers(0, data_len, 1500))
+        part = os.path.join(tmp, "part.npz")
+        os.rename(full, part)
+        count = nt = 0
+        for n in sorted(offs, reverse=True):
+            os.truncate(part, n)
+            try:
+                obj = loader(part, shm)
+            except Exception:
+                obj = None
+            count += 1
+            nt += n > first_end
+            if obj is not None:
+                region = "in_first_header" if n <= first_end else ("in_central_directory_or_after" if n >= cd_start else "in_member_data_or_headers")
+                rec.violation(dict(case0, prefix=n), f"{kind} {cfg}: a {n}-byte prefix of the {data_len}-byte file loaded through {via} loader (shared_memory={shm}) and returned {type(obj).__name__} ({region})", "prefix-loaded")
+                del obj
+                break
+        rec.bulk(count, nt, dict(case0, example_prefix=data_len - 7), {"prefixes_of_files_of_1MB_or_more": count})
+        del sk
+    finally:
+        shutil.rmtree(tmp, ignore_errors=True)
+    return rec
+
+
 def jobs_for(tier, seed):
     n = 2 if tier == "quick" else 6
     rng = np.random.default_rng(common.derive_seed(seed, "C20-shapes"))
@@ -207,16 +269,88 @@ def jobs_for(tier, seed):
     return jobs
 
 
+def _opt_jobs(tier, seed):
+    """the jobs repeated in an interpreter started with -O (assert statements are stripped): one shape per class"""
+    return [j for j in jobs_for(tier, seed) if j[2] == "class" and not j[3]][:: (2 if tier == "quick" else 1)][:5 if tier == "quick" else 15]
+
+
 def run(tier, seed, rec):
+    import pickle
+    import subprocess
+    import sys
+
     jobs = jobs_for(tier, seed)
     jobs.sort(key=lambda j: -(j[1].get("width", 1) * j[1].get("depth", 1) * j[1].get("max_key_len", 1) + (1 << j[1].get("p", 0))))
+    # the same enumeration in an interpreter started with -O
+    out = tempfile.NamedTemporaryFile(prefix="vf_c20_opt_", suffix=".pkl", delete=False).name
+    env = dict(os.environ, VERIF_C20_CHILD=out, PYTHONPATH=common.VERIF_DIR)
+    child = subprocess.Popen([sys.executable, "-O", "-W", "ignore", "-c", "import sys; from vf import common; common.import_sut(); common.patch_sleep(); from vf import c20; c20._child_main(sys.argv[1], int(sys.argv[2]))", tier, str(seed)], cwd=common.VERIF_DIR, env=env, stdout=subprocess.PIPE, stderr=subprocess.PIPE, text=True)
     common.pool_merge(_task, jobs, rec)
     if not rec.violations:
         rec.exhaustive.append("every strict prefix length of every generated file, per loader")
+    kinds = ["linear", "log16", "log8", "hh", "hll"]
+    if tier == "quick":
+        k2 = kinds[1 + common.derive_seed(seed, "C20-big") % 3]
+        bj = [("linear", "class", False), ("linear", "module", False), (k2, "class", False), ("hh" if k2 != "hh" else "log8", "class", True)]
+    else:
+        bj = [(k, v, sh) for k in kinds for v, sh in (("class", False), ("class", True), ("module", False)) if v == "class" or k in ("linear", "log16", "log8")]
+    common.pool_merge(_big_task, [(k, v, sh, common.derive_seed(seed, "C20-big", k, v)) for k, v, sh in bj], rec)
+    try:
+        so, se = child.communicate(timeout=1500)
+    except subprocess.TimeoutExpired:
+        child.kill()
+        raise common.HarnessError("the -O interpreter did not finish within 1500 s: inconclusive")
+    try:
+        with open(out, "rb") as f:
+            sub = pickle.load(f)
+    except Exception as e:  # noqa
+        raise common.HarnessError(f"the -O interpreter produced no result (rc={child.returncode}): {se[-1500:]}")
+    finally:
+        try:
+            os.unlink(out)
+        except OSError:
+            pass
+    rec.merge(sub)
+
+
+def _child_main(tier, seed):
+    import pickle
+    import sys
+
+    if sys.flags.optimize < 1:
+        raise SystemExit("expected to run under python -O")
+    rec = common.Recorder()
+    for j in _opt_jobs(tier, seed):
+        r = _task(j)
+        for v in r.violations:
+            v["case"]["python_O"] = True
+            v["msg"] = "[python -O] " + v["msg"]
+        rec.merge(r)
+        rec.count("prefixes_tried_under_python_O", r.evaluations)
+    with open(os.environ["VERIF_C20_CHILD"], "wb") as f:
+        pickle.dump(rec, f)
 
 
 def replay(case):
+    if case.get("big"):
+        r = _big_task((case["kind"], case["via"], case["shm"], case["seed"]))
+        if r.violations:
+            raise Violation(r.violations[0]["msg"], r.violations[0]["signature"])
+        return
+    if case.get("python_O"):
+        import subprocess
+        import sys
+
+        c = {k: v for k, v in case.items() if k != "python_O"}
+        code = "import json,sys; from vf import common; common.import_sut(); from vf import c20; c20.replay(common.unjson(json.loads(sys.argv[1])))"
+        import json
+
+        r = subprocess.run([sys.executable, "-O", "-W", "ignore", "-c", code, json.dumps(common.jsonable(c))], cwd=common.VERIF_DIR, env=dict(os.environ, PYTHONPATH=common.VERIF_DIR), capture_output=True, text=True)
+        if r.returncode != 0:
+            raise Violation("[python -O] " + (r.stderr.strip().splitlines() or ["replay failed"])[-1], "prefix-loaded")
+        return
     kind = case["cfg"]["kind"]
     r = _task((kind, case["cfg"], case["via"], case["shm"], case["seed"]))
     if r.violations:
         raise Violation(r.violations[0]["msg"], r.violations[0]["signature"])
+
